@@ -91,6 +91,8 @@ static int wait_fd(int fd, short what, int ms)
   int rc = ::poll(&p, 1, ms);
   return rc > 0 ? p.revents : 0;
 }
+// the blocking mode the guards rely on is the descriptor's REAL one (fcntl), never what the library call claimed
+static int real_nb(Socket* s) { if(!s || !s->isOpen()) return 0; int fl = fcntl(fdOf(s), F_GETFL); return fl >= 0 && (fl & O_NONBLOCK); }
 static void log_size(long long size) { j_int("hi", size >> 16); j_int("lo", size & 0xffff); }
 static void log_head(const unsigned char* b, long long r)
 {
@@ -114,13 +116,13 @@ static void op_conn()
   uint32 lip = 0, aip = 0, ip1 = 0, ip2 = 0, ip3 = 0, ip4 = 0; uint16 lport = 0, aport = 0, p1 = 0, p2 = 0, p3 = 0, p4 = 0;
   bool ok = lis.open() && lis.setReuseAddress() && lis.bind(Socket::loopbackAddress, 0) && lis.listen() && lis.getSockName(lip, lport);
   bool okA = ok && ep[a]->open();
-  if(okA && nbA && early) { okA = ep[a]->setNonBlocking(); nb[a] = 1; }
+  if(okA && nbA && early) { okA = ep[a]->setNonBlocking(); nb[a] = real_nb(ep[a]); }
   bool okC = okA && ep[a]->connect(Socket::loopbackAddress, lport);
   if(okC && nb[a]) okC = (wait_fd(fdOf(ep[a]), POLLOUT, 8000) & POLLOUT) != 0 && ep[a]->getAndResetErrorStatus() == 0;
   bool okB = okC && (wait_fd(fdOf(&lis), POLLIN, 8000) & POLLIN) && lis.accept(*ep[b], aip, aport);
   bool okN = okB;
-  if(okB && nbA && !early) { okN = okN && ep[a]->setNonBlocking(); nb[a] = 1; }
-  if(okB && nbB) { okN = okN && ep[b]->setNonBlocking(); nb[b] = 1; }
+  if(okB && nbA && !early) { okN = ep[a]->setNonBlocking() && okN; nb[a] = real_nb(ep[a]); }
+  if(okB && nbB) { okN = ep[b]->setNonBlocking() && okN; nb[b] = real_nb(ep[b]); }
   bool okG = okB && ep[a]->getSockName(ip1, p1) && ep[a]->getPeerName(ip2, p2) && ep[b]->getSockName(ip3, p3) && ep[b]->getPeerName(ip4, p4);
   if(okB) isopen_[a] = isopen_[b] = 1;
   ev_begin("conn"); j_int("c", c); j_bool("nbA", nbA); j_bool("nbB", nbB); j_bool("ok", ok && okA && okC && okB && okN && okG);
@@ -323,7 +325,7 @@ static void op_opt()
   int got = -1; usize len = sizeof(got); bool gok = true;
   if(which != 0) gok = s->getSockOpt(level, name, &got, len);
   int fl = s->isOpen() ? fcntl(fdOf(s), F_GETFL) : 0;
-  if(which == 0 && r) { if(kind == 0) nb[idx] = 1; else unb[idx] = 1; }
+  if(which == 0) { if(kind == 0) nb[idx] = real_nb(s); else unb[idx] = real_nb(s); }
   if((which == 4 || which == 5) && kind == 0 && val < 65536) smallbuf[idx] = 1;
   ev_begin("opt"); j_int("kind", kind); j_int("idx", idx); j_int("which", which); j_int("val", val); j_bool("isopen", s->isOpen());
   j_bool("r", r); j_bool("gok", gok); j_int("got", got); j_int("len", (long long)len); j_bool("nbfl", (fl & O_NONBLOCK) != 0); j_end();
@@ -339,7 +341,7 @@ static void op_uopen()
   bool ok = us[u]->open(Socket::udpProtocol);
   uint32 ip = 0; uint16 port = 0;
   if(ok && bindit) ok = us[u]->bind(Socket::loopbackAddress, 0) && us[u]->getSockName(ip, port);
-  if(ok && nbf) { ok = us[u]->setNonBlocking(); unb[u] = 1; }
+  if(ok && nbf) { ok = us[u]->setNonBlocking(); unb[u] = real_nb(us[u]); }
   uport[u] = port; uopen_[u] = ok;
   ev_begin("uopen"); j_int("u", u); j_bool("bound", bindit); j_bool("nb", nbf); j_bool("ok", ok); j_int("ip", ip); j_int("port", port);
   j_bool("isopen", us[u]->isOpen()); j_end();
@@ -382,7 +384,7 @@ static void op_urecv(int huge)
 {
   int u = (int)tok_int(); long long maxSize = tok_ll();
   if(u < 1 || u > NU || !us[u]) { skip("urecv: no such socket"); return; }
-  if(!unb[u] && uopen_[u] && !(wait_fd(fdOf(us[u]), POLLIN, 100) & POLLIN)) { skip("blocking recvFrom could block forever"); return; }
+  if(!unb[u] && uopen_[u] && !(wait_fd(fdOf(us[u]), POLLIN, 20) & POLLIN)) { skip("blocking recvFrom could block forever"); return; }
   unsigned char* buf;
   if(huge) { huge_init(); if(maxSize > (1LL << 33)) die("urecvhuge: size beyond the mapped region"); buf = hugeDst; }
   else { if(maxSize > (1 << 20)) die("urecv: size beyond the driver's limit"); buf = (unsigned char*)malloc(maxSize ? maxSize : 1); }
